@@ -115,6 +115,10 @@ def _worker(spec):
     for gi, g in enumerate(gs):
         cls = gg.classify(tbs[gi])
         if cls in ('rr', 'acc') or diags[gi].has_rr: continue
+        # a conflict grammar whose table differs from the reference is not parsed at all: neither termination nor anything else
+        # is promised there, and the reference cannot predict loops of a different table (the table difference itself is reported)
+        if cls != 'lr1' and tdiffs[gi]:
+            out['counts']['grammars_not_parsed_table_differs'] += 1; continue
         keep = []
         for idx, data in enumerate(inputs[gi]):
             # grammars with resolved conflicts may loop on some inputs (termination is promised for conflict-free grammars only):
@@ -122,7 +126,7 @@ def _worker(spec):
             if cls != 'lr1' and model.expect(g, tbs[gi], data).res.hang:
                 out['counts']['inputs_skipped_reference_step_limit'] += 1; continue
             for mode in modes: jobs.append((gi, idx, mode, data))
-    rc, recs, _, meta, err = eg.run_jobs(exe, jobs, timeout=cfg.get('timeout', 600))
+    rc, recs, _, meta, err = eg.run_jobs(exe, jobs, timeout=cfg.get('timeout', 300))
     byk = {(r.gi, r.idx, r.mode): r for r in recs}
     ctxinfo = {'rc': rc, 'meta': meta, 'err': err[-2000:]}
     JUDGES[prop](spec, gs, tbs, inputs, diags, dumps, maps, tdiffs, byk, jobs, ctxinfo, out)
